@@ -278,6 +278,12 @@ fn select_insert_nullability_family(rep: &mut Report) {
 }
 
 fn main() {
+    // the engine frees a large top-of-heap buffer per query; keep glibc from returning it to the kernel
+    // every time (brk thrash made the quick tier many times slower under load)
+    unsafe {
+        libc::mallopt(libc::M_TRIM_THRESHOLD, 1 << 30);
+        libc::mallopt(libc::M_TOP_PAD, 64 << 20);
+    }
     let args = Args::parse("C11");
     engine::silence_panics();
     let mut rep = Report::new(&args, "erroring multi-row statement (>= 2 rows) with the failure injected at a chosen row position");
